@@ -48,7 +48,7 @@ var configs = map[string]config{
 	"C03": {pkg: "./checks/c03", shardsQ: 4, shardsT: 16, level: "fault_enumeration"},
 	"C04": {pkg: "./checks/c04", shardsQ: 4, shardsT: 16, level: "exploration", fuzz: []fuzzTarget{{"FuzzUnmarshalAll", 60}, {"FuzzAPIReply", 60}, {"FuzzListenHandler", 45}}},
 	"C05": {pkg: "./checks/c05", shardsQ: 4, shardsT: 16, level: "exploration", fuzz: []fuzzTarget{{"FuzzRoundTrip", 60}}},
-	"C06": {pkg: "./checks/c06", shardsQ: 4, shardsT: 16, level: "exploration"},
+	"C06": {pkg: "./checks/c06", shardsQ: 8, shardsT: 16, level: "exploration"},
 	"C07": {pkg: "./checks/c07", shardsQ: 4, shardsT: 16, level: "exploration"},
 	"C08": {pkg: "./checks/c08", race: true, shardsQ: 4, shardsT: 12, level: "exploration"},
 	"C09": {pkg: "./checks/c09", shardsQ: 4, shardsT: 12, level: "fault_enumeration"},
